@@ -165,9 +165,30 @@ func runC20(c *Ctx) {
 	alg := cose.AlgorithmES256
 	for round := 0; round < rounds; round++ {
 		r := mon.NewRand(uint64(c.Seed)).Sub(uint64(71000 + round))
+		// header shapes of the single-call entry points (round 0; the random headers of the later rounds get the
+		// retained-unprotected-bytes shape only): every fault meets headers with and without retained raw bytes,
+		// with and without alg, with nil maps
+		shape := "plain"
 		mkHeaders := func() cose.Headers {
 			if round == 0 {
-				return cose.Headers{Protected: cose.ProtectedHeader{int64(1): alg}, Unprotected: cose.UnprotectedHeader{int64(4): []byte("kid")}}
+				h := cose.Headers{Protected: cose.ProtectedHeader{int64(1): alg}, Unprotected: cose.UnprotectedHeader{int64(4): []byte("kid")}}
+				switch shape {
+				case "raw-unprotected":
+					h.RawUnprotected = []byte{0xa1, 0x04, 0x43, 'k', 'i', 'd'}
+				case "raw-unprotected-only":
+					h.Unprotected = nil
+					h.RawUnprotected = []byte{0xa1, 0x04, 0x43, 'k', 'i', 'd'}
+				case "raw-both":
+					h.RawProtected = []byte{0x43, 0xa1, 0x01, 0x26}
+					h.RawUnprotected = []byte{0xa1, 0x04, 0x43, 'k', 'i', 'd'}
+				case "raw-unprotected-empty-map":
+					h.RawUnprotected = []byte{0xa0}
+				case "no-alg":
+					h.Protected = cose.ProtectedHeader{}
+				case "nil-maps":
+					h = cose.Headers{}
+				}
+				return h
 			}
 			h := c01headers(r, alg, 0, mon.Pick(r, 0, 3, 6), 0)
 			for _, m := range []map[any]any{h.Protected, h.Unprotected} {
@@ -175,6 +196,11 @@ func runC20(c *Ctx) {
 					if nl, ok := refNorm(k); ok && (nl == 3 || nl == 2) {
 						delete(m, k)
 					}
+				}
+			}
+			if shape == "raw-unprotected" {
+				if b, err := h.Unprotected.MarshalCBOR(); err == nil {
+					h.RawUnprotected = b
 				}
 			}
 			return h
@@ -185,127 +211,138 @@ func runC20(c *Ctx) {
 
 		// ---------- single-call signing entry points ----------
 		// (every fault twice: with a plain signer and with a signer that is a Verifier as well)
-		for ff := 0; ff < 2*nSignFaults; ff++ {
-			f := ff % nSignFaults
-			c20alsoVerifier = ff >= nSignFaults
-			failing, wantErr := failingFault(f)
-			empty := f == fEmptyNil || f == fEmptyZero
-			type result struct {
-				err     error
-				bytes   []byte // bytes returned by a helper (nil for methods)
-				stored  []byte // signature stored in the object (methods)
-				marshal func() ([]byte, error)
-				helper  bool
-				bare    bool // returns a bare signature (Countersign0)
-			}
-			entries := map[string]func() result{
-				"Sign1Message.Sign": func() result {
-					m := &cose.Sign1Message{Headers: mkHeaders(), Payload: payload}
-					err := m.Sign(gen.Entropy, ext, mkSigner(alg, f))
-					return result{err: err, stored: m.Signature, marshal: m.MarshalCBOR}
-				},
-				"UntaggedSign1Message.Sign": func() result {
-					m := &cose.UntaggedSign1Message{Headers: mkHeaders(), Payload: payload}
-					err := m.Sign(gen.Entropy, ext, mkSigner(alg, f))
-					return result{err: err, stored: m.Signature, marshal: m.MarshalCBOR}
-				},
-				"Sign1": func() result {
-					b, err := cose.Sign1(gen.Entropy, mkSigner(alg, f), mkHeaders(), payload, ext)
-					return result{err: err, bytes: b, helper: true}
-				},
-				"Sign1Untagged": func() result {
-					b, err := cose.Sign1Untagged(gen.Entropy, mkSigner(alg, f), mkHeaders(), payload, ext)
-					return result{err: err, bytes: b, helper: true}
-				},
-				"Signature.Sign": func() result {
-					s := &cose.Signature{Headers: mkHeaders()}
-					err := s.Sign(gen.Entropy, mkSigner(alg, f), []byte{0x40}, payload, ext)
-					return result{err: err, stored: s.Signature, marshal: s.MarshalCBOR}
-				},
-				"Countersignature.Sign": func() result {
-					s := &cose.Countersignature{Headers: mkHeaders()}
-					err := s.Sign(gen.Entropy, mkSigner(alg, f), parent, ext)
-					return result{err: err, stored: s.Signature, marshal: s.MarshalCBOR}
-				},
-				"Countersign0": func() result {
-					b, err := cose.Countersign0(gen.Entropy, mkSigner(alg, f), parent, ext)
-					return result{err: err, bytes: b, helper: true, bare: true}
-				},
-				"SignHashEnvelope": func() result {
-					b, err := cose.SignHashEnvelope(gen.Entropy, mkSigner(alg, f), mkHeaders(), cose.HashEnvelopePayload{HashAlgorithm: cose.AlgorithmSHA256, HashValue: make([]byte, 32)})
-					return result{err: err, bytes: b, helper: true}
-				},
-			}
-			for name, run := range entries {
-				in := map[string]any{"entry": name, "fault": faultNames[f], "round": round, "external": ext}
-				var res result
-				if guard(rec, name, in, func() { res = run() }) {
-					continue
+		shapes := []string{"plain", "raw-unprotected"}
+		if round == 0 {
+			shapes = []string{"plain", "raw-unprotected", "raw-unprotected-only", "raw-both", "raw-unprotected-empty-map", "no-alg", "nil-maps"}
+		}
+		for _, sh := range shapes {
+			shape = sh
+			for ff := 0; ff < 2*nSignFaults; ff++ {
+				f := ff % nSignFaults
+				c20alsoVerifier = ff >= nSignFaults
+				failing, wantErr := failingFault(f)
+				empty := f == fEmptyNil || f == fEmptyZero
+				type result struct {
+					err     error
+					bytes   []byte // bytes returned by a helper (nil for methods)
+					stored  []byte // signature stored in the object (methods)
+					marshal func() ([]byte, error)
+					helper  bool
+					bare    bool // returns a bare signature (Countersign0)
 				}
-				rec.Eval(1)
-				rec.Event(name)
-				key := name + "/" + faultNames[f]
-				if c20alsoVerifier {
-					key += "/signer-is-also-a-verifier"
+				entries := map[string]func() result{
+					"Sign1Message.Sign": func() result {
+						m := &cose.Sign1Message{Headers: mkHeaders(), Payload: payload}
+						err := m.Sign(gen.Entropy, ext, mkSigner(alg, f))
+						return result{err: err, stored: m.Signature, marshal: m.MarshalCBOR}
+					},
+					"UntaggedSign1Message.Sign": func() result {
+						m := &cose.UntaggedSign1Message{Headers: mkHeaders(), Payload: payload}
+						err := m.Sign(gen.Entropy, ext, mkSigner(alg, f))
+						return result{err: err, stored: m.Signature, marshal: m.MarshalCBOR}
+					},
+					"Sign1": func() result {
+						b, err := cose.Sign1(gen.Entropy, mkSigner(alg, f), mkHeaders(), payload, ext)
+						return result{err: err, bytes: b, helper: true}
+					},
+					"Sign1Untagged": func() result {
+						b, err := cose.Sign1Untagged(gen.Entropy, mkSigner(alg, f), mkHeaders(), payload, ext)
+						return result{err: err, bytes: b, helper: true}
+					},
+					"Signature.Sign": func() result {
+						s := &cose.Signature{Headers: mkHeaders()}
+						err := s.Sign(gen.Entropy, mkSigner(alg, f), []byte{0x40}, payload, ext)
+						return result{err: err, stored: s.Signature, marshal: s.MarshalCBOR}
+					},
+					"Countersignature.Sign": func() result {
+						s := &cose.Countersignature{Headers: mkHeaders()}
+						err := s.Sign(gen.Entropy, mkSigner(alg, f), parent, ext)
+						return result{err: err, stored: s.Signature, marshal: s.MarshalCBOR}
+					},
+					"Countersign0": func() result {
+						b, err := cose.Countersign0(gen.Entropy, mkSigner(alg, f), parent, ext)
+						return result{err: err, bytes: b, helper: true, bare: true}
+					},
+					"SignHashEnvelope": func() result {
+						b, err := cose.SignHashEnvelope(gen.Entropy, mkSigner(alg, f), mkHeaders(), cose.HashEnvelopePayload{HashAlgorithm: cose.AlgorithmSHA256, HashValue: make([]byte, 32)})
+						return result{err: err, bytes: b, helper: true}
+					},
 				}
-				rec.Class(key)
-				if failing {
-					if res.err == nil {
-						rec.Violate("error-lost", key, "the signer failed but the signing call returned nil", in)
+				for name, run := range entries {
+					in := map[string]any{"entry": name, "fault": faultNames[f], "round": round, "external": ext, "headers": shape}
+					var res result
+					if guard(rec, name, in, func() { res = run() }) {
 						continue
 					}
-					if !errors.Is(res.err, wantErr) {
-						rec.Violate("error-replaced", key, "the signing call did not return the signer's error: "+res.err.Error(), in)
+					rec.Eval(1)
+					rec.Event(name)
+					key := name + "/" + faultNames[f]
+					if shape != "plain" {
+						key += "/headers=" + shape
 					}
-					if len(res.bytes) > 0 {
-						rec.Violate("bytes-with-error", key, fmt.Sprintf("the signing call returned %d bytes together with an error", len(res.bytes)), in)
+					if c20alsoVerifier {
+						key += "/signer-is-also-a-verifier"
 					}
-					if len(res.stored) > 0 {
-						rec.Violate("signature-stored-on-error", key, "a signature was stored although the signer failed", in)
-					}
-					if res.marshal != nil {
-						if b, e := res.marshal(); e == nil {
-							rec.Violate("half-signed-serialised", key, "the object serialises although its signer failed: "+hexs(b), in)
+					rec.Class(key)
+					if failing {
+						if res.err == nil {
+							rec.Violate("error-lost", key, "the signer failed but the signing call returned nil", in)
+							continue
 						}
-					}
-					continue
-				}
-				if empty {
-					// Sign may report success, but nothing with an empty signature may be emitted
-					if res.helper && !res.bare {
-						if res.err == nil || len(res.bytes) > 0 {
-							rec.Violate("empty-signature-emitted", key, fmt.Sprintf("helper returned err=%v and %d bytes for a signer that produced an empty signature: %s", res.err, len(res.bytes), hexs(res.bytes)), in)
+						if !errors.Is(res.err, wantErr) {
+							rec.Violate("error-replaced", key, "the signing call did not return the signer's error: "+res.err.Error(), in)
 						}
-					}
-					if res.marshal != nil {
-						if b, e := res.marshal(); e == nil {
-							rec.Violate("empty-signature-emitted", key, "encoder emitted a message with an empty signature: "+hexs(b), in)
+						if len(res.bytes) > 0 {
+							rec.Violate("bytes-with-error", key, fmt.Sprintf("the signing call returned %d bytes together with an error", len(res.bytes)), in)
 						}
-					}
-					continue
-				}
-				// fault-free: must succeed and emit a complete message
-				if res.err != nil {
-					rec.Violate("ok-vector-failed", key, "fault-free signing failed: "+res.err.Error(), in)
-					continue
-				}
-				out := res.bytes
-				if res.marshal != nil {
-					var e error
-					if out, e = res.marshal(); e != nil {
-						rec.Violate("ok-vector-failed", key, "fully signed object does not serialise: "+e.Error(), in)
+						if len(res.stored) > 0 {
+							rec.Violate("signature-stored-on-error", key, "a signature was stored although the signer failed", in)
+						}
+						if res.marshal != nil {
+							if b, e := res.marshal(); e == nil {
+								rec.Violate("half-signed-serialised", key, "the object serialises although its signer failed: "+hexs(b), in)
+							}
+						}
 						continue
 					}
-				}
-				if !res.bare {
-					if ok, why := noEmptySig(out); !ok {
-						rec.Violate("empty-signature-emitted", key, why+": "+hexs(out), in)
+					if empty {
+						// Sign may report success, but nothing with an empty signature may be emitted
+						if res.helper && !res.bare {
+							if res.err == nil || len(res.bytes) > 0 {
+								rec.Violate("empty-signature-emitted", key, fmt.Sprintf("helper returned err=%v and %d bytes for a signer that produced an empty signature: %s", res.err, len(res.bytes), hexs(res.bytes)), in)
+							}
+						}
+						if res.marshal != nil {
+							if b, e := res.marshal(); e == nil {
+								rec.Violate("empty-signature-emitted", key, "encoder emitted a message with an empty signature: "+hexs(b), in)
+							}
+						}
+						continue
 					}
-				} else if len(out) == 0 {
-					rec.Violate("ok-vector-failed", key, "Countersign0 returned no signature", in)
+					// fault-free: must succeed and emit a complete message
+					if res.err != nil {
+						rec.Violate("ok-vector-failed", key, "fault-free signing failed: "+res.err.Error(), in)
+						continue
+					}
+					out := res.bytes
+					if res.marshal != nil {
+						var e error
+						if out, e = res.marshal(); e != nil {
+							rec.Violate("ok-vector-failed", key, "fully signed object does not serialise: "+e.Error(), in)
+							continue
+						}
+					}
+					if !res.bare {
+						if ok, why := noEmptySig(out); !ok {
+							rec.Violate("empty-signature-emitted", key, why+": "+hexs(out), in)
+						}
+					} else if len(out) == 0 {
+						rec.Violate("ok-vector-failed", key, "Countersign0 returned no signature", in)
+					}
 				}
 			}
 		}
+		shape = "plain"
 
 		c20alsoVerifier = false
 		// ---------- SignMessage.Sign, n = 1..4: 5^n vectors ----------
